@@ -34,6 +34,14 @@
 (* merge, each on its own; a stream whose late read fails stays empty.      *)
 (* defer[n] says what a directly stored number is: "no" (not deferred),     *)
 (* "ok" (filled in late) or "bad" (the late read fails).                    *)
+(* Header numbers: the loader keys a block by the number in the object      *)
+(* stream's HEADER, which need not be the number of the cross-reference     *)
+(* entry that led to it (hdr[c]; the identity in a well-formed file) - two  *)
+(* entries may lead to streams that claim the same number.  As the code is, *)
+(* blocks are ordered by (header number, entry); DevTieByCompletion = TRUE  *)
+(* models the loader before /repo ca537a5: a stable sort by header number   *)
+(* only, which leaves equal numbers in completion order.                    *)
+(*                                                                          *)
 (* DevStopAtFirstFailure = TRUE models a loader that stops filling in at    *)
 (* the first failure (a seeded change): which streams stay empty then       *)
 (* depends on the completion order.                                         *)
@@ -41,6 +49,8 @@
 EXTENDS Naturals, Sequences, FiniteSets, SequencesExt
 
 CONSTANTS Workers, Containers, Nums, DevFirstWins,
+          HdrChoices,          \* header numbers: a set of functions [Containers -> Nat]; {identity} = well-formed files only
+          DevTieByCompletion,
           DeferU,              \* directly stored numbers that may be deferred streams; {} = none
           DevStopAtFirstFailure,
           DropU                \* numbers a filter may drop (SUBSET (Nums \cup Containers)); {} = plain loads only
@@ -50,6 +60,7 @@ Normal == 999
 
 VARIABLES xref, members,      \* the file (chosen in Init, then constant)
           drop,               \* what the caller's filter drops (chosen in Init, then constant)
+          hdr,                \* [Containers -> Nat]: the number in each object stream's header (chosen in Init)
           defer,              \* [Nums -> {"no", "ok", "bad"}] (chosen in Init, then constant)
           late,               \* deferred streams in the order the workers pushed them
           filled,             \* streams whose content was filled in after the merge
@@ -59,7 +70,7 @@ VARIABLES xref, members,      \* the file (chosen in Init, then constant)
           blocks,             \* container numbers in the order their blocks were handed in
           result, pc
 
-plvars == <<xref, members, drop, defer, late, filled, pending, busy, direct, blocks, result, pc>>
+plvars == <<xref, members, drop, hdr, defer, late, filled, pending, busy, direct, blocks, result, pc>>
 
 Entries == Containers \cup {n \in Nums : xref[n] = Normal}
 
@@ -67,6 +78,7 @@ PLInit ==
     /\ xref \in [Nums -> {Absent, Normal} \cup Containers]
     /\ members \in [Containers -> SUBSET Nums]
     /\ drop \in SUBSET DropU
+    /\ hdr \in HdrChoices
     /\ defer \in [Nums -> {"no", "ok", "bad"}]
     /\ \A n \in Nums : defer[n] # "no" => (n \in DeferU /\ xref[n] = Normal)
     /\ late = <<>> /\ filled = {}
@@ -77,7 +89,7 @@ PLInit ==
 Take(w, e) ==
     /\ pc = "load" /\ busy[w] = 0 /\ e \in pending
     /\ busy' = [busy EXCEPT ![w] = e] /\ pending' = pending \ {e}
-    /\ UNCHANGED <<xref, members, drop, defer, late, filled, direct, blocks, result, pc>>
+    /\ UNCHANGED <<xref, members, drop, hdr, defer, late, filled, direct, blocks, result, pc>>
 
 \* the worker finished parsing: a container hands its block in (under the mutex), anything else is collected
 Finish(w) ==
@@ -89,17 +101,20 @@ Finish(w) ==
        ELSE /\ direct' = direct \cup {busy[w]} /\ UNCHANGED blocks
             /\ late' = IF defer[busy[w]] # "no" THEN Append(late, busy[w]) ELSE late
     /\ busy' = [busy EXCEPT ![w] = 0]
-    /\ UNCHANGED <<xref, members, drop, defer, filled, pending, result, pc>>
+    /\ UNCHANGED <<xref, members, drop, hdr, defer, filled, pending, result, pc>>
 
 \* merge of the blocks in a given order into the map num -> <<where, num>> that already holds the direct objects
-MergeBlocks(order, dir, xr, mem, firstWins) ==
+MergeBlocksH(order, dir, xr, mem, firstWins, hd, tie) ==
     LET start == [n \in dir |-> <<0, n>>]
-        ord == IF firstWins THEN order ELSE SortSeq(order, LAMBDA a, b : a < b)
-        accept(c, n) == firstWins \/ xr[n] = Absent \/ xr[n] = c
+        pos(c) == CHOOSE i \in 1..Len(order) : order[i] = c
+        before(a, b) == hd[a] < hd[b] \/ (hd[a] = hd[b] /\ (IF tie THEN pos(a) < pos(b) ELSE a < b))
+        ord == IF firstWins THEN order ELSE SortSeq(order, before)
+        accept(c, n) == firstWins \/ xr[n] = Absent \/ xr[n] = hd[c]
         addBlock(acc, c) ==
             LET new == {n \in mem[c] : n \notin DOMAIN acc /\ accept(c, n)}
             IN [n \in DOMAIN acc \cup new |-> IF n \in DOMAIN acc THEN acc[n] ELSE <<c, n>>]
     IN FoldLeft(addBlock, start, ord)
+MergeBlocks(order, dir, xr, mem, firstWins) == MergeBlocksH(order, dir, xr, mem, firstWins, hdr, DevTieByCompletion)
 
 \* the blocks as the workers hand them in: members the filter dropped are gone
 Kept(mem, dr) == [c \in DOMAIN mem |-> mem[c] \ dr]
@@ -115,7 +130,7 @@ Merge ==
     /\ result' = MergeBlocks(blocks, direct, xref, Kept(members, drop), DevFirstWins)
     /\ filled' = FillIn(late, defer, DevStopAtFirstFailure)
     /\ pc' = "done"
-    /\ UNCHANGED <<xref, members, drop, defer, late, pending, busy, direct, blocks>>
+    /\ UNCHANGED <<xref, members, drop, hdr, defer, late, pending, busy, direct, blocks>>
 
 PLNext == (\E w \in Workers, e \in Entries : Take(w, e)) \/ (\E w \in Workers : Finish(w)) \/ Merge
 
@@ -137,7 +152,7 @@ Deterministic == pc = "done" => (result = SeqResult /\ filled = SeqFilled)
 AllFilled == pc = "done" => filled = {n \in Nums : defer[n] = "ok"} \ drop
 
 \* C07's clause on this level: a compressed object comes from the container its xref entry names
-LatestWins == pc = "done" => \A n \in DOMAIN result :
+LatestWins == (pc = "done" /\ \A c \in Containers : hdr[c] = c) => \A n \in DOMAIN result :
                  (xref[n] \in Containers /\ n \in members[xref[n]]) => result[n] = <<xref[n], n>>
 
 \* Filtered loading is the plain load restricted: an object the file's cross-reference table lists is loaded
